@@ -5,6 +5,7 @@ import (
 	"errors"
 	"fmt"
 	"go/format"
+	"html"
 	"io"
 	"strings"
 	"unicode"
@@ -805,7 +806,20 @@ func (ca ConstantAttribute) String() string {
 	if ca.SingleQuote {
 		quote = `'`
 	}
-	return ca.Name + `=` + quote + ca.Value + quote
+	return ca.Name + `=` + quote + escapeConstantAttributeValue(ca.Value, quote) + quote
+}
+
+// escapeConstantAttributeValue writes a constant attribute value, which the parser stores HTML-unescaped, so that
+// it reads back as the same value: the quote in use, and "&" where it would start a character reference, are
+// written as character references.
+func escapeConstantAttributeValue(value, quote string) string {
+	if html.UnescapeString(value) != value {
+		value = strings.ReplaceAll(value, "&", "&amp;")
+	}
+	if quote == `'` {
+		return strings.ReplaceAll(value, `'`, "&#39;")
+	}
+	return strings.ReplaceAll(value, `"`, "&quot;")
 }
 
 func (ca ConstantAttribute) Write(w io.Writer, indent int) error {
